@@ -62,7 +62,7 @@ def run_shard(shard, ctx):
                      "pax-size-before-nonregular-with-offset", "data-inside-header-area", "names-with-magic-text",
                      "ustar-prefix-lengths", "stacked-pax-xsize+g", "stacked-pax-xsize+xpath", "stacked-pax-g+xsize",
                      "stacked-pax-xpath+xsize", "stacked-pax-Xsize+g", "stacked-pax-xsize+g+xpath", "shared-data-offsets",
-                     "pax-size-for-visor-member", "shared-raw-handle-file", "shared-raw-handle-stream"):
+                     "pax-size-for-visor-member", "shared-raw-handle-file", "shared-raw-handle-stream", "names-not-utf8", "gnu-sparse-member"):
             run_case({"special": what}, ctx)
         return
     if shard.get("high"):
@@ -294,6 +294,60 @@ def _case_special(case, ctx):
                                 break
                         finally:
                             fh.close()
+            elif what == "gnu-sparse-member":
+                # an ordinary GNU archive with a sparse member (old 'S' header: the stored runs are expanded into a file of the
+                # recorded real size) between plain members and in front of a visor member: read as the standard reader reads it
+                runs = [(0, 1024), (8192, 512), (19000, 1000)]
+                real = 20000
+                stored = b"".join(_data(11 + j, ln) for j, (_, ln) in enumerate(runs))
+                h = bytearray(B.hdr("s/sparse.bin", len(stored), typ=b"S", visor=False))
+                h[257:265] = b"ustar  \0"  # GNU magic
+                pos = 386
+                for off, ln in runs:
+                    h[pos:pos + 12] = b"%011o\0" % off
+                    h[pos + 12:pos + 24] = b"%011o\0" % ln
+                    pos += 24
+                h[482] = 0
+                h[483:495] = b"%011o\0" % real
+                h[148:156] = b" " * 8
+                h[148:156] = b"%06o\0 " % sum(h)
+                first = B.hdr("s/first.txt", 700, visor=False) + B.pad512(_data(1, 700))
+                last = B.hdr("s/last.txt", 300, visor=False) + B.pad512(_data(2, 300))
+                img = first + bytes(h) + B.pad512(stored) + last + B.hdr("s/visor.bin", 600, offset_data=16384) + b"\0" * 1024
+                img = img.ljust(16384, b"\0") + _data(3, 600)
+                ref = tarfile.open(fileobj=io.BytesIO(img.replace(b"visor  \0", b"ustar\x0000")))  # (the standard reader's view of the plain members)
+                rm = {m.name: m for m in ref.getmembers()}
+                want = ref.extractfile(rm["s/sparse.bin"]).read()
+                if len(want) != real or want[8192:8192 + 512] != _data(12, 512):
+                    raise AssertionError("harness: the standard reader does not expand the sparse member as built")
+                t = vmtar.open(fileobj=io.BytesIO(img))
+                exp = [("s/first.txt", _data(1, 700)), ("s/sparse.bin", want), ("s/last.txt", _data(2, 300)), ("s/visor.bin", _data(3, 600))]
+                got = [(m.name, t.extractfile(m).read()) for m in t.getmembers()]
+            elif what == "names-not-utf8":
+                # member names that are no valid UTF-8 (Latin-1 bytes), two of them differing in such a byte only: listed as the
+                # standard reader lists them, and each name extracts its own member
+                got, exp = [], []
+                for visor in (False, True):
+                    specs = [(b"d/caf\xe9.txt", b"E-ACUTE" * 30), (b"d/caf\xe8.txt", b"E-GRAVE" * 41), (b"d/plain.txt", b"PLAIN" * 9),
+                             (b"d/\xff\xfe", b"BOM?" * 5)]
+                    heads = bytearray()
+                    datas = b""
+                    for j, (nm, data) in enumerate(specs):
+                        if visor:
+                            heads += B.hdr(nm, len(data), offset_data=8192 + 1024 * j)
+                            datas += data.ljust(1024, b"\xEE")
+                        else:
+                            heads += B.hdr(nm, len(data), visor=False) + B.pad512(data)
+                    heads += b"\0" * 1024
+                    img = bytes(heads).ljust(8192, b"\0") + datas
+                    names = [nm.decode("utf-8", "surrogateescape") for nm, _ in specs]
+                    t = vmtar.open(fileobj=io.BytesIO(img))
+                    exp.append([(n_, d_) for n_, (_, d_) in zip(names, specs)])
+                    got.append([(m.name, t.extractfile(m.name).read()) for m in t.getmembers()])
+                    if not visor:
+                        ref = tarfile.open(fileobj=io.BytesIO(img))
+                        if [m.name for m in ref.getmembers()] != names:
+                            raise AssertionError("harness: the standard reader lists other names")
             elif what == "pax-size-for-visor-member":
                 # a regular visor member whose header leaves the size field 0 and whose real size is in a pax record: its bytes
                 # are the ones at its recorded data offset, and the members behind it are still listed
